@@ -47,7 +47,7 @@ theorem growth_reaches_index (a : Arr) (pos : Nat) (h : a.size ≤ a.capa) :
     reports failure — for every oracle -/
 theorem retry_bounds (a : Arr) (pos : Nat) (o : Oracle) (h : a.size ≤ a.capa) :
     match (retryCapa (wantCapa a pos) (minCapa a pos) o).1 with
-    | some c => minCapa a pos ≤ c ∧ c ≤ wantCapa a pos
+    | some c => minCapa a pos ≤ c ∧ c ≤ wantCapa a pos ∧ c ≤ maxCapa
     | none => True := by
   cases hr : retryCapa (wantCapa a pos) (minCapa a pos) o with
   | mk r o' =>
@@ -65,13 +65,17 @@ theorem insert_spec (a : Arr) (pos v : Nat) (o : Oracle) (h : WF a) :
     (r.ret = .ok pos ∧ abs r.arr = insSlots (abs a) pos v ∧
         r.arr.size = (if pos > a.size then pos + 1 else a.size + 1) ∧ r.arr.tally = a.tally + 1 ∧ r.evs = [] ∧
         r.arr.size ≤ r.arr.capa)
-    ∨ (r.ret = .error .enomem ∧ r.arr = a ∧ r.evs = []) := by
+    ∨ (r.ret = .error .enomem ∧ r.arr = a ∧ r.evs = [])
+    ∨ (r.ret = .error .einval ∧ r.arr = a ∧ r.evs = [] ∧ r.orc = o ∧ maxCapa ≤ pos) := by
   intro r
   simp only [r, insert]
+  by_cases hfar : pos ≥ maxCapa
+  · right; right; simp [hfar]
+  rw [if_neg hfar]
   cases o.next with
   | mk b o1 =>
     cases b with
-    | false => right; simp
+    | false => right; left; simp
     | true =>
       simp only
       split
@@ -79,7 +83,7 @@ theorem insert_spec (a : Arr) (pos v : Nat) (o : Oracle) (h : WF a) :
         cases hr : retryCapa (wantCapa a pos) (minCapa a pos) o1 with
         | mk rc o2 =>
           cases rc with
-          | none => right; simp
+          | none => right; left; simp
           | some c =>
             have hb := retryCapa_some _ _ _ _ _ (minCapa_le_wantCapa a pos h.size_le_capa) hr
             have hm : pos < c ∧ a.size < c := by
@@ -90,12 +94,16 @@ theorem insert_spec (a : Arr) (pos v : Nat) (o : Oracle) (h : WF a) :
       · left; simp [abs]; split <;> omega
 
 /-- with an allocator that never refuses, insert always succeeds -/
-theorem insert_succeeds (a : Arr) (pos v : Nat) (h : WF a) :
+theorem insert_succeeds (a : Arr) (pos v : Nat) (h : WF a) (hfit : minCapa a pos ≤ maxCapa) :
     (insert a pos v []).ret = .ok pos := by
-  simp only [insert, Oracle.next]
+  have hpos : ¬ pos ≥ maxCapa := by unfold minCapa at hfit; split at hfit <;> omega
+  simp only [insert, Oracle.next, if_neg hpos]
   split
-  · rw [retryCapa_nil]
-    have := growth_reaches_index a pos h.size_le_capa
+  · obtain ⟨c, hc⟩ := retryCapa_nil (wantCapa a pos) (minCapa a pos) hfit (minCapa_le_wantCapa a pos h.size_le_capa)
+    have hb := retryCapa_some _ _ _ _ _ (minCapa_le_wantCapa a pos h.size_le_capa) hc
+    rw [hc]
+    have hm : pos < c ∧ a.size < c := by
+      have := hb.1; unfold minCapa at this; split at this <;> omega
     simp only
     rw [if_neg (by omega)]
   · rfl
@@ -197,7 +205,7 @@ theorem upsert_read (a : Arr) (pos v : Nat) (o : Oracle) (h : WF a)
     simp only [hp, if_false] at *
     have hi := insert_spec a pos v o h
     simp only at hi
-    rcases hi with ⟨_, habs, _⟩ | ⟨he, _⟩
+    rcases hi with ⟨_, habs, _⟩ | ⟨he, _⟩ | ⟨he, _⟩
     · simp only [read, abs] at *
       rw [habs]
       simp only [insSlots, hl, if_true, ge_iff_le]
@@ -219,6 +227,7 @@ theorem upsert_read (a : Arr) (pos v : Nat) (o : Oracle) (h : WF a)
             simp only [List.length_replicate] at *
             rw [List.getElem?_singleton]
             simp [this]
+    · rw [he] at hok; cases hok
     · rw [he] at hok; cases hok
 
 /-- update and uplete keep every other index in place -/
@@ -267,11 +276,12 @@ theorem uplete_frame (a : Arr) (index count j : Nat) (h : WF a) (hj : j < index 
 theorem insert_wf (a : Arr) (pos v : Nat) (o : Oracle) (h : WF a) : WF (insert a pos v o).arr := by
   have hs := insert_spec a pos v o h
   simp only at hs
-  rcases hs with ⟨_, habs, hsz, ht, _, hc⟩ | ⟨_, he, _⟩
+  rcases hs with ⟨_, habs, hsz, ht, _, hc⟩ | ⟨_, he, _⟩ | ⟨_, he, _⟩
   · simp only [abs] at habs
     refine ⟨?_, ?_, hc⟩
     · rw [hsz, habs, length_insSlots, ← h.size_eq]
     · rw [ht, habs, occupied_insSlots, h.tally_eq]
+  · rw [he]; exact h
   · rw [he]; exact h
 
 theorem upsert_wf (a : Arr) (pos v : Nat) (o : Oracle) (h : WF a) : WF (upsert a pos v o).arr := by
@@ -302,6 +312,43 @@ theorem reachable_wf (ops : List Op) : WF (run ops) := by
 /-- after clear everything reads as empty and the size is 0 -/
 theorem clear_spec (a : Arr) : abs (clear a).1 = [] ∧ (clear a).1.size = 0 ∧ (clear a).1.tally = 0 := by
   simp [clear, abs]
+
+/-! ## the table always fits the machine word, and growth asks the allocator only logarithmically often -/
+
+theorem step_fits (a : Arr) (op : Op) (hw : WF a) (h : Fits a) : Fits (step a op) := by
+  cases op with
+  | insert p v o => exact insert_fits a p v o hw h
+  | upsert p v o =>
+    simp only [step, upsert]; split
+    · simp only [Fits]; rw [update_capa]; exact h
+    · exact insert_fits a p v o hw h
+  | update p v o => simp only [step, Fits]; rw [update_capa]; exact h
+  | delete i c => simp only [step, Fits]; rw [delete_capa]; exact h
+  | uplete i c => simp only [step, Fits]; rw [uplete_capa]; exact h
+  | clear => simp only [step, clear, Fits]; exact h
+  | setcapa c o => exact setcapa_fits a c o h
+
+/-- in every reachable state the capacity is one whose table size fits the word: no request for a wrapped-around
+    (possibly zero) number of bytes is ever made -/
+theorem reachable_fits (ops : List Op) : Fits (run ops) := by
+  unfold run
+  have : ∀ (a : Arr), WF a → Fits a → Fits (ops.foldl step a) := by
+    induction ops with
+    | nil => intro a _ h; exact h
+    | cons op ops ih => intro a hw h; exact ih _ (step_wf a op hw) (step_fits a op hw h)
+  exact this empty ⟨rfl, rfl, by simp [empty]⟩ (by simp [Fits, empty])
+
+/-- a position no table can hold is refused at once: nothing changes, the allocator is not asked -/
+theorem insert_far_refused (a : Arr) (pos v : Nat) (o : Oracle) (h : maxCapa ≤ pos) :
+    (insert a pos v o).ret = .error .einval ∧ (insert a pos v o).arr = a ∧ (insert a pos v o).orc = o := by
+  simp [insert, h]
+
+/-- the retry loop asks the allocator at most log2(wish - minimum) + 2 times — for every allocator behaviour -/
+theorem retry_requests_logarithmic (a : Arr) (pos : Nat) (o : Oracle) :
+    o.length ≤ (retryCapa (wantCapa a pos) (minCapa a pos) o).2.length +
+      (Nat.log2 (wantCapa a pos - minCapa a pos) + 2) :=
+  retryCapa_requests _ _ _
+
 
 /-! ## heap operations keep the heap order (dense arrays, integer comparator) and the contents -/
 
@@ -353,10 +400,10 @@ example : HeapOrd (hstep [9, 5, 7, 1] (.upd 3 8)) := hstep_heap _ _ ex_heap
     returned) meets the hypotheses of the theorems above and succeeds -/
 def ex64 : Arr := { slots := [some 1], size := 1, tally := 1, capa := 64 }
 example : WF ex64 := ⟨rfl, rfl, by decide⟩
-example : (insert ex64 128 7 []).ret = .ok 128 := insert_succeeds ex64 128 7 ⟨rfl, rfl, by decide⟩
+example : (insert ex64 128 7 []).ret = .ok 128 := insert_succeeds ex64 128 7 ⟨rfl, rfl, by decide⟩ (by decide)
 example : read (upsert ex64 128 7 []).arr 128 = some 7 :=
   (upsert_read ex64 128 7 [] ⟨rfl, rfl, by decide⟩
-    (by unfold upsert; rw [if_neg (by decide)]; exact insert_succeeds ex64 128 7 ⟨rfl, rfl, by decide⟩)).1
+    (by unfold upsert; rw [if_neg (by decide)]; exact insert_succeeds ex64 128 7 ⟨rfl, rfl, by decide⟩ (by decide))).1
 
 /-! ## heap with position back-pointers (`heap_pos_offset`): after every history each item's position field names
     the slot it is in, and the keys evolve exactly as in the key-only heap above (so the order theorem carries over) -/
